@@ -1,15 +1,24 @@
-import CalicoVerif.Model.C26
+import CalicoVerif.Proofs.C26Loop
 /-!
 C26 — Datastore watchers converge across watch failures and resyncs.
 
-What is PROVED here (for all inputs): the `watcherSyncer` status aggregation part of the property
-("in-sync is reported only after every resource type has completed a full list") and the status
-discipline of `finishResync` / `sendResult`.  What is NOT proved in Lean yet and is only checked on the
-real code by the harness oracles (`not-converged`, `cache-updates-while-waiting`, `updates-while-waiting`):
-`cache_converges` / `vanished_deleted` (the accumulated update stream equals the converted datastore
-contents after a successful list and the events that follow) and `quiet_while_waiting` for the whole
-cache machine.  The executable model of the whole machine (`runCall`) is tied to the real code by the
-correspondence run, so those statements are testable on the model, but they are not theorems.
+Model: `Model/C26.lean` — one `watcherCache` as a machine over scripted List outcomes
+(ok / not-found / expired / other ± retry-timeout elapsed), Watch-create outcomes (expired / connection
+refused ± timeout / not supported / other) and watch events (add/modify, delete, bookmark, expired, error,
+unknown), and `watcherSyncer.processResult`.  A *session* is any sequence of `call`s (one
+`resyncAndLoopReadingFromWatcher` each, with ANY script) and `stop`s (`sendDeletionsForAllResources`);
+`total` is everything the cache ever put on the results channel and `downFrom emptyView total` the view
+of a consumer that applied all of it.
+
+Proved for ALL sessions / scripts:
+  * `downstream_mirrors_cache`  the consumer's view is at every moment exactly the cache's `resources`;
+  * `quiet_while_waiting`       no `updates` result is ever emitted while the last status the cache announced is
+                                WaitForDatastore;
+  * `list_converges`            a successful List leaves exactly the converted list, whatever preceded;
+  * `cache_converges`           after a call that had to resync (revision lost), whatever failures were scripted,
+                                the consumer holds exactly conversion(one of the successfully listed snapshots
+                                followed by the watch events processed) — and `vanished_deleted`;
+  * the syncer part: `insync_after_all_listed`, `waiting_only_when_all_wait`, `syncer_quiet_while_waiting`.
 -/
 namespace CalicoVerif.C26
 
@@ -115,20 +124,406 @@ theorem waiting_only_when_all_wait (n : Nat) (bs : List (Nat × List Res)) :
   exact aggregate_wait _ (hagg ▸ hs)
 
 /-- `sendResult` swallows a status equal to the current one and otherwise records it. -/
-theorem send_status (wc : WC) (s : Nat) : (wc.send (.status s)).status = s := by
-  simp only [WC.send]
-  split
-  · rename_i h; exact h.symm
-  · rfl
-
-theorem send_old (wc : WC) (r : Res) : (wc.send r).old = wc.old := by
-  cases r <;> simp only [WC.send]
-  split <;> rfl
+theorem send_status (wc : WC) (s : Nat) : (wc.send (.status s)).status = s := send_status' wc s
 
 /-- A cache always leaves `finishResync` in the InSync state with the mark-and-sweep set emptied. -/
 theorem finishResync_status (wc : WC) : wc.finishResync.status = stInSync ∧ wc.finishResync.old = none := by
   unfold WC.finishResync
-  exact ⟨send_status _ _, by rw [send_old]⟩
+  refine ⟨send_status' _ _, ?_⟩
+  rw [send_old']
+  unfold WC.sweep
+  split
+  · split <;> rfl
+  · rfl
+
+/-! ### sessions of one cache -/
+
+/-- One step of a cache's life: a call of `resyncAndLoopReadingFromWatcher` with an arbitrary script, or the
+shutdown processing. -/
+inductive COp where
+  | call (lists : List ListOut) (watches : List WatchOut) (fin : List KV × Nat) (evs : List Ev)
+  | stop
+
+/-- The List that finally succeeds carries a real revision (otherwise the real loop polls for ever). -/
+def COp.WF : COp → Prop
+  | .call _ _ fin _ => fin.2 ≠ 0
+  | .stop => True
+
+def WC.stepOp (wc : WC) : COp → WC
+  | .call l w f e => runCall wc l w f e
+  | .stop => ({ wc with out := [] }).sendDeletionsForAll
+
+structure Sess where
+  wc : WC
+  /-- everything the cache has put on the results channel so far -/
+  total : List Res
+
+def Sess.init (procMode : Nat) (sendDeletes : Bool) : Sess := ⟨WC.new procMode sendDeletes, []⟩
+
+def Sess.step (s : Sess) (op : COp) : Sess := ⟨s.wc.stepOp op, s.total ++ (s.wc.stepOp op).out⟩
+
+def Sess.run (s : Sess) (ops : List COp) : Sess := ops.foldl Sess.step s
+
+structure SInv (s : Sess) : Prop where
+  idle : s.wc.old = none
+  mirror : ∀ k, downFrom emptyView s.total k = lookup s.wc.res k
+  track : lastStatus stWait s.total = s.wc.status
+  quiet : quietFrom stWait s.total = true
+  owed : s.wc.status = stWait → s.wc.rev = 0
+
+theorem SInv.init (m : Nat) (sd : Bool) : SInv (Sess.init m sd) :=
+  ⟨rfl, fun _ => rfl, rfl, rfl, fun _ => rfl⟩
+
+/-- The per-call invariant at the start of a call. -/
+theorem SInv.start {s : Sess} (h : SInv s) :
+    Good (fun k => lookup s.wc.res k) s.wc.status { s.wc with out := [] } := by
+  refine ⟨⟨?_, ?_, rfl, rfl⟩, h.idle⟩
+  · intro k hk; simp [oldLookup, h.idle] at hk
+  · intro k
+    show lookup s.wc.res k = view { s.wc with out := [] } k
+    simp only [view, oldLookup, h.idle, Option.bind_none]
+    cases lookup s.wc.res k <;> rfl
+
+/-- Gluing a call's result onto the session. -/
+theorem SInv.glue {s : Sess} (h : SInv s) (w : WC)
+    (g : Good (fun k => lookup s.wc.res k) s.wc.status w) (ho : w.status = stWait → w.rev = 0) :
+    SInv ⟨w, s.total ++ w.out⟩ := by
+  have e : downFrom emptyView s.total = fun k => lookup s.wc.res k := funext h.mirror
+  refine ⟨g.idle, ?_, ?_, ?_, ho⟩
+  · intro k
+    show downFrom emptyView (s.total ++ w.out) k = lookup w.res k
+    rw [downFrom_append, e, g.inv.mirror, g.view_eq]
+  · show lastStatus stWait (s.total ++ w.out) = w.status
+    rw [lastStatus_append, h.track]; exact g.inv.track
+  · show quietFrom stWait (s.total ++ w.out) = true
+    rw [quietFrom_append, h.quiet, h.track, g.inv.quiet]; rfl
+
+/-- What a call does, for any script. -/
+theorem call_ok {s : Sess} (h : SInv s) (lists : List ListOut) (watches : List WatchOut) (fin : List KV × Nat)
+    (evs : List Ev) (hfin : fin.2 ≠ 0) :
+    ∃ w1, resyncLoop fin (lists.length + watches.length + 2) { s.wc with out := [] } false lists watches = some w1 ∧
+      Good (fun k => lookup s.wc.res k) s.wc.status w1 ∧ w1.status ≠ stWait ∧
+      runCall s.wc lists watches fin evs = eventLoop w1 evs := by
+  have hsome := resyncLoop_some fin hfin (lists.length + watches.length + 2) { s.wc with out := [] } false lists watches
+    (by omega)
+  cases hr : resyncLoop fin (lists.length + watches.length + 2) { s.wc with out := [] } false lists watches with
+  | none => rw [hr] at hsome; cases hsome
+  | some w1 =>
+    have hok := resyncLoop_ok fin _ _ false lists watches h.start
+      (fun c => Or.inr (h.owed c)) w1 hr
+    refine ⟨w1, rfl, hok.1, hok.2, ?_⟩
+    unfold runCall
+    simp only [hr, Option.getD_some]
+
+theorem SInv.step {s : Sess} (h : SInv s) (op : COp) (hwf : op.WF) : SInv (s.step op) := by
+  cases op with
+  | call lists watches fin evs =>
+    obtain ⟨w1, _, g1, hs1, hrun⟩ := call_ok h lists watches fin evs hwf
+    obtain ⟨g2, st2, _⟩ := eventLoop_ok evs g1 hs1
+    have : s.step (.call lists watches fin evs) =
+        ⟨eventLoop w1 evs, s.total ++ (eventLoop w1 evs).out⟩ := by
+      simp only [Sess.step, WC.stepOp, hrun]
+    rw [this]
+    exact h.glue _ g2 (fun c => by rw [st2] at c; exact absurd c hs1)
+  | stop =>
+    obtain ⟨g, _, hrev⟩ := sendDeletionsForAll_ok h.start
+    exact h.glue _ g (fun _ => hrev)
+
+theorem SInv.run {s : Sess} (h : SInv s) (ops : List COp) (hwf : ∀ op ∈ ops, op.WF) : SInv (s.run ops) := by
+  induction ops generalizing s with
+  | nil => exact h
+  | cons op ops ih =>
+    exact ih (h.step op (hwf op (List.mem_cons_self ..))) (fun o ho => hwf o (List.mem_cons_of_mem _ ho))
+
+/-- **The consumer's view is the cache's view, always**: after any session (any scripts, any failures,
+any stops) a consumer that applied every emitted update holds exactly the keys and revisions in the
+cache's `resources`. -/
+theorem downstream_mirrors_cache (m : Nat) (sd : Bool) (ops : List COp) (hwf : ∀ op ∈ ops, op.WF) (k : Nat) :
+    downFrom emptyView ((Sess.init m sd).run ops).total k = lookup ((Sess.init m sd).run ops).wc.res k :=
+  ((SInv.init m sd).run ops hwf).mirror k
+
+/-- **No update while waiting for the datastore**: in the stream of any session, no `updates` result is
+emitted while the last status the cache announced (initially WaitForDatastore) is WaitForDatastore. -/
+theorem quiet_while_waiting (m : Nat) (sd : Bool) (ops : List COp) (hwf : ∀ op ∈ ops, op.WF) :
+    quietFrom stWait ((Sess.init m sd).run ops).total = true :=
+  ((SInv.init m sd).run ops hwf).quiet
+
+/-- The cache's `status` field is the status last announced on the stream, and a cache that is (again)
+waiting has forgotten its watch revision, i.e. will re-list before watching. -/
+theorem status_tracked (m : Nat) (sd : Bool) (ops : List COp) (hwf : ∀ op ∈ ops, op.WF) :
+    lastStatus stWait ((Sess.init m sd).run ops).total = ((Sess.init m sd).run ops).wc.status ∧
+    (((Sess.init m sd).run ops).wc.status = stWait → ((Sess.init m sd).run ops).wc.rev = 0) :=
+  ⟨((SInv.init m sd).run ops hwf).track, ((SInv.init m sd).run ops hwf).owed⟩
+
+/-- **A successful List converges, whatever preceded**: for a cache in any reachable state, processing the
+listed KVs leaves the cache (hence, by `downstream_mirrors_cache`, the consumer) with exactly the converted
+list: entries not in the list are swept, unchanged revisions are kept without an update. -/
+theorem list_converges {m0 : View} {st0 : Nat} {wc : WC} (h : Good m0 st0 wc) (kvs : List KV) (k : Nat) :
+    downFrom m0 (wc.processList kvs).out k = (kvs.flatMap (convert wc.procMode)).foldl applyKV emptyView k ∧
+    (wc.processList kvs).status = stInSync := by
+  have l := processList_ok h kvs
+  exact ⟨by rw [l.good.inv.mirror, l.view], l.status⟩
+
+/-- The successfully listed snapshots of a script. -/
+def okLists (lists : List ListOut) : List (List KV) :=
+  lists.filterMap (fun lo => match lo with
+    | .ok kvs _ => some kvs
+    | _ => none)
+
+/-- **Convergence across failures**: take any reachable cache whose watch revision is lost (it must re-list:
+start of day, expired watch, too many errors, shutdown deletions …) and ANY script of List / Watch-create
+failures and watch events.  After the call the consumer holds exactly
+conversion(L followed by the watch events processed before the watch broke), where L is one of the
+snapshots a List successfully returned during the call. -/
+theorem cache_converges (m : Nat) (sd : Bool) (ops : List COp) (hwf : ∀ op ∈ ops, op.WF)
+    (lists : List ListOut) (watches : List WatchOut) (fin : List KV × Nat) (evs : List Ev) (hfin : fin.2 ≠ 0) :
+    let s := (Sess.init m sd).run ops
+    s.wc.rev = 0 →
+    ∃ L ∈ fin.1 :: okLists lists, ∀ k,
+      downFrom emptyView (s.step (.call lists watches fin evs)).total k =
+        ((L ++ processed evs).flatMap (convert s.wc.procMode)).foldl applyKV emptyView k := by
+  intro s hrev
+  have h : SInv s := (SInv.init m sd).run ops hwf
+  obtain ⟨w1, hr, g1, hs1, hrun⟩ := call_ok h lists watches fin evs hfin
+  have hl := resyncLoop_listed fin s.wc.procMode (fin.1 :: okLists lists) (List.mem_cons_self ..)
+    (lists.length + watches.length + 2) { s.wc with out := [] } false lists watches h.start
+    (fun c => Or.inr (h.owed c)) rfl
+    (by
+      intro kvs r hmem
+      refine List.mem_cons_of_mem _ (List.mem_filterMap.mpr ⟨_, hmem, rfl⟩))
+    (Or.inr (Or.inr hrev)) w1 hr
+  obtain ⟨⟨L, hL, hv⟩, hm1⟩ := hl
+  obtain ⟨g2, _, v2⟩ := eventLoop_ok evs g1 hs1
+  have h' := h.step (.call lists watches fin evs) hfin
+  refine ⟨L, hL, fun k => ?_⟩
+  rw [h'.mirror]
+  have : (s.step (.call lists watches fin evs)).wc = eventLoop w1 evs := by
+    simp only [Sess.step, WC.stepOp, hrun]
+  rw [this, ← g2.view_eq, v2, hm1, List.flatMap_append, List.foldl_append]
+  have : view w1 = (L.flatMap (convert s.wc.procMode)).foldl applyKV emptyView := funext hv
+  rw [this]
+
+/-- **Resources that vanished are deleted**: in the situation of `cache_converges`, a key that neither the
+listed snapshot nor the processed events (after conversion) mention is not held by the consumer afterwards —
+whatever it held before. -/
+theorem vanished_deleted (m : Nat) (sd : Bool) (ops : List COp) (hwf : ∀ op ∈ ops, op.WF)
+    (lists : List ListOut) (watches : List WatchOut) (fin : List KV × Nat) (evs : List Ev) (hfin : fin.2 ≠ 0) :
+    let s := (Sess.init m sd).run ops
+    s.wc.rev = 0 →
+    ∃ L ∈ fin.1 :: okLists lists, ∀ k,
+      (∀ kv ∈ (L ++ processed evs).flatMap (convert s.wc.procMode), kv.key ≠ k) →
+      downFrom emptyView (s.step (.call lists watches fin evs)).total k = none := by
+  intro s hrev
+  obtain ⟨L, hL, hv⟩ := cache_converges m sd ops hwf lists watches fin evs hfin hrev
+  refine ⟨L, hL, fun k hk => ?_⟩
+  rw [hv k, foldl_applyKV_not_mem _ _ _ hk]
+  rfl
+
+/-! ### the syncer never delivers updates while it reports WaitForDatastore -/
+
+/-- The status the callbacks were last told. -/
+def cbLast : Nat → List Cb → Nat
+  | st, [] => st
+  | _, .status s :: r => cbLast s r
+  | st, .updates _ :: r => cbLast st r
+  | st, .syncFailed :: r => cbLast st r
+
+/-- No `OnUpdates` callback while the last `OnStatusUpdated` was WaitForDatastore. -/
+def cbQuiet : Nat → List Cb → Bool
+  | _, [] => true
+  | _, .status s :: r => cbQuiet s r
+  | st, .updates _ :: r => st != stWait && cbQuiet st r
+  | st, .syncFailed :: r => cbQuiet st r
+
+theorem cbLast_snoc (st : Nat) (l : List Cb) (c : Cb) :
+    cbLast st (l ++ [c]) = match c with
+      | .status s => s
+      | _ => cbLast st l := by
+  induction l generalizing st with
+  | nil => cases c <;> rfl
+  | cons x xs ih => cases x <;> simp [cbLast, ih]
+
+theorem cbQuiet_snoc (st : Nat) (l : List Cb) (c : Cb) :
+    cbQuiet st (l ++ [c]) = (cbQuiet st l && match c with
+      | .updates _ => cbLast st l != stWait
+      | _ => true) := by
+  induction l generalizing st with
+  | nil => cases c <;> simp [cbQuiet, cbLast]
+  | cons x xs ih => cases x <;> simp [cbQuiet, cbLast, ih, Bool.and_assoc]
+
+/-- The callback-side part of the syncer invariant (independent of `cacheStatuses`). -/
+structure QInv (ws : WS) : Prop where
+  last : cbLast stWait ws.cbs = ws.status
+  quiet : cbQuiet stWait ws.cbs = true
+  /-- buffered updates are only held while the syncer is not in WaitForDatastore -/
+  pend : ws.pending ≠ [] → ws.status ≠ stWait
+
+structure WInv (ws : WS) : Prop where
+  agg : ws.status = aggregate ws.cacheStatuses
+  q : QInv ws
+
+theorem QInv.flush {ws : WS} (h : QInv ws) : QInv ws.flush := by
+  unfold WS.flush
+  split
+  · exact h
+  · rename_i hne
+    have hp : ws.pending ≠ [] := by simpa using hne
+    refine ⟨?_, ?_, fun c => absurd rfl c⟩
+    · show cbLast stWait (ws.cbs ++ [Cb.updates ws.pending]) = ws.status
+      rw [cbLast_snoc]; exact h.last
+    · show cbQuiet stWait (ws.cbs ++ [Cb.updates ws.pending]) = true
+      rw [cbQuiet_snoc, h.quiet, h.last]
+      simp [h.pend hp]
+
+theorem flush_fields (ws : WS) : ws.flush.status = ws.status ∧ ws.flush.cacheStatuses = ws.cacheStatuses ∧
+    ws.flush.pending = [] := by
+  unfold WS.flush
+  split
+  · rename_i he; exact ⟨rfl, rfl, by simpa using he⟩
+  · exact ⟨rfl, rfl, rfl⟩
+
+theorem WInv.flush {ws : WS} (h : WInv ws) : WInv ws.flush := by
+  obtain ⟨f1, f2, _⟩ := flush_fields ws
+  exact ⟨by rw [f1, f2]; exact h.agg, h.q.flush⟩
+
+/-- One result from cache `i`: fine as long as that cache is not emitting updates while the syncer has it
+recorded as waiting. -/
+theorem WInv.processResult {ws : WS} (h : WInv ws) (i : Nat) (hi : i < ws.cacheStatuses.length) (r : Res)
+    (hq : ∀ us, r = .updates us → ws.cacheStatuses[i] ≠ stWait) :
+    WInv (ws.processResult i r) := by
+  cases r with
+  | updates us =>
+    have hne := hq us rfl
+    have hst : ws.status ≠ stWait := by
+      intro c
+      rw [h.agg] at c
+      exact hne (aggregate_wait _ c _ (List.getElem_mem hi))
+    exact ⟨h.agg, h.q.last, h.q.quiet, fun _ => hst⟩
+  | convErr => exact h.flush
+  | backendErr =>
+    have hf := h.flush
+    refine ⟨hf.agg, ?_, ?_, hf.q.pend⟩
+    · show cbLast stWait (ws.flush.cbs ++ [Cb.syncFailed]) = ws.flush.status
+      rw [cbLast_snoc]; exact hf.q.last
+    · show cbQuiet stWait (ws.flush.cbs ++ [Cb.syncFailed]) = true
+      rw [cbQuiet_snoc, hf.q.quiet]; rfl
+  | status s =>
+    simp only [WS.processResult]
+    split
+    · -- transition: flush first, then announce
+      have q0 : QInv ({ ws with cacheStatuses := ws.cacheStatuses.set i s } : WS) :=
+        ⟨h.q.last, h.q.quiet, h.q.pend⟩
+      have q1 := q0.flush
+      obtain ⟨_, f2, f3⟩ := flush_fields ({ ws with cacheStatuses := ws.cacheStatuses.set i s } : WS)
+      generalize ({ ws with cacheStatuses := ws.cacheStatuses.set i s } : WS).flush = w1 at q1 f2 f3
+      refine ⟨?_, ?_, ?_, ?_⟩
+      · show aggregate (ws.cacheStatuses.set i s) = aggregate w1.cacheStatuses
+        rw [f2]
+      · show cbLast stWait (w1.cbs ++ [Cb.status _]) = _
+        rw [cbLast_snoc]
+      · show cbQuiet stWait (w1.cbs ++ [Cb.status _]) = true
+        rw [cbQuiet_snoc, q1.quiet]; rfl
+      · intro c; exact absurd f3 c
+    · rename_i hne
+      simp only [bne_iff_ne, ne_eq, Decidable.not_not] at hne
+      exact ⟨hne.symm, h.q.last, h.q.quiet, h.q.pend⟩
+
+theorem processResult_length (ws : WS) (i : Nat) (r : Res) :
+    (ws.processResult i r).cacheStatuses.length = ws.cacheStatuses.length := by
+  cases r with
+  | updates us => rfl
+  | convErr => exact congrArg List.length (flush_fields ws).2.1
+  | backendErr => exact congrArg List.length (flush_fields ws).2.1
+  | status s =>
+    simp only [WS.processResult]
+    split
+    · show (WS.flush _).cacheStatuses.length = _
+      rw [(flush_fields _).2.1]; simp
+    · simp
+
+theorem processResult_recorded (ws : WS) (i : Nat) (hi : i < ws.cacheStatuses.length) (r : Res) :
+    (ws.processResult i r).cacheStatuses[i]? = some (lastStatus ws.cacheStatuses[i] [r]) := by
+  cases r with
+  | updates us => simp [WS.processResult, lastStatus, hi]
+  | convErr => simp [WS.processResult, (flush_fields ws).2.1, lastStatus, hi]
+  | backendErr => simp [WS.processResult, (flush_fields ws).2.1, lastStatus, hi]
+  | status s =>
+    simp only [WS.processResult, lastStatus]
+    split
+    · show (WS.flush _).cacheStatuses[i]? = _
+      rw [(flush_fields _).2.1]; simp [hi]
+    · simp [hi]
+
+/-- A whole batch from cache `i` whose stream is quiet relative to the status the syncer has recorded for
+that cache. -/
+theorem WInv.processBatch {ws : WS} (h : WInv ws) (i : Nat) (hi : i < ws.cacheStatuses.length) (rs : List Res)
+    (hq : quietFrom ws.cacheStatuses[i] rs = true) :
+    WInv (ws.processBatch i rs) ∧ (ws.processBatch i rs).cacheStatuses.length = ws.cacheStatuses.length := by
+  unfold WS.processBatch
+  have key : ∀ (rs : List Res) (ws : WS), WInv ws → (hi : i < ws.cacheStatuses.length) →
+      quietFrom ws.cacheStatuses[i] rs = true →
+      WInv (rs.foldl (fun ws r => ws.processResult i r) ws) ∧
+        (rs.foldl (fun ws r => ws.processResult i r) ws).cacheStatuses.length = ws.cacheStatuses.length := by
+    intro rs
+    induction rs with
+    | nil => intro ws h _ _; exact ⟨h, rfl⟩
+    | cons r rs ih =>
+      intro ws h hi hq
+      simp only [List.foldl_cons]
+      have hlen := processResult_length ws i r
+      have hi' : i < (ws.processResult i r).cacheStatuses.length := by rw [hlen]; exact hi
+      have hrec := processResult_recorded ws i hi r
+      have hget : (ws.processResult i r).cacheStatuses[i] = lastStatus ws.cacheStatuses[i] [r] := by
+        have := List.getElem?_eq_getElem hi'
+        rw [this] at hrec
+        exact Option.some.inj hrec
+      have step : WInv (ws.processResult i r) := by
+        apply h.processResult i hi r
+        intro us e
+        subst e
+        simp only [quietFrom, Bool.and_eq_true, bne_iff_ne, ne_eq] at hq
+        exact hq.1
+      have hq' : quietFrom (ws.processResult i r).cacheStatuses[i] rs = true := by
+        rw [hget]
+        cases r with
+        | status s => simpa [quietFrom, lastStatus] using hq
+        | updates us =>
+          simp only [quietFrom, Bool.and_eq_true] at hq
+          simpa [lastStatus] using hq.2
+        | convErr => simpa [quietFrom, lastStatus] using hq
+        | backendErr => simpa [quietFrom, lastStatus] using hq
+      obtain ⟨a, b⟩ := ih _ step hi' hq'
+      exact ⟨a, by rw [b, hlen]⟩
+  obtain ⟨a, b⟩ := key rs ws h hi hq
+  refine ⟨a.flush, ?_⟩
+  rw [(flush_fields _).2.1, b]
+
+/-- Batches whose streams are quiet relative to what the syncer has recorded for the emitting cache — which is
+what `quiet_while_waiting` + `status_tracked` guarantee for every real cache, the syncer recording exactly the
+statuses the cache announced. -/
+def BatchesQuiet : WS → List (Nat × List Res) → Prop
+  | _, [] => True
+  | ws, (i, rs) :: bs =>
+    (∃ hi : i < ws.cacheStatuses.length, quietFrom ws.cacheStatuses[i] rs = true) ∧
+      BatchesQuiet (ws.processBatch i rs) bs
+
+/-- **The syncer never delivers updates while it reports WaitForDatastore**: for any number of caches and any
+interleaving of their (quiet) result batches, no `OnUpdates` callback happens while the last
+`OnStatusUpdated` was WaitForDatastore. -/
+theorem syncer_quiet_while_waiting (n : Nat) (bs : List (Nat × List Res))
+    (hq : BatchesQuiet (WS.new (n + 1)) bs) :
+    cbQuiet stWait ((WS.new (n + 1)).runBatches bs).cbs = true := by
+  have h0 : WInv (WS.new (n + 1)) :=
+    ⟨by simp [WS.new, aggregate, List.replicate_succ], rfl, rfl, fun c => absurd rfl c⟩
+  have : ∀ (bs : List (Nat × List Res)) (ws : WS), WInv ws → BatchesQuiet ws bs → WInv (ws.runBatches bs) := by
+    intro bs
+    induction bs with
+    | nil => intro ws h _; exact h
+    | cons b bs ih =>
+      intro ws h hb
+      obtain ⟨⟨hi, hq1⟩, hrest⟩ := hb
+      exact ih _ (h.processBatch b.1 hi b.2 hq1).1 hrest
+  exact (this bs _ h0 hq).q.quiet
 
 /-! ### non-vacuity / regression examples on the executable model -/
 
@@ -146,5 +541,35 @@ example :
     wc0.rev = 0 ∧
     wc1.out = [.status stResync, .updates [⟨3, 8, utNew⟩], .updates [⟨2, 0, utDeleted⟩], .status stInSync] ∧
     wc1.res = [(3, 8), (1, 5)] ∧ wc1.rev = 9 := by decide
+
+/-- A session with failures at every stage: first call lists fine; second call starts with an expired watch
+revision (`rev = 0`), a List error past the retry timeout (the cache regresses to WaitForDatastore), an
+expired List, two Watch-create failures, then the final List and events ending in a watch error.
+Hypotheses of `cache_converges` hold; the stream contains a WaitForDatastore and is quiet. -/
+def demoSession : List COp :=
+  [ .call [] [] ([⟨1, 5, false⟩, ⟨2, 6, false⟩], 7) [.errExpired] ]
+
+def demoCall : COp :=
+  .call [.other true, .expired] [.other, .connRefused false] ([⟨1, 5, false⟩, ⟨3, 8, false⟩], 9)
+    [.upsert ⟨4, 10, false⟩, .delete ⟨3, 11, false⟩, .errOther, .upsert ⟨5, 12, false⟩]
+
+example : (∀ op ∈ demoSession, op.WF) ∧ demoCall.WF := by
+  refine ⟨?_, by simp [demoCall, COp.WF]⟩
+  intro op h
+  simp only [demoSession, List.mem_singleton] at h
+  subst h
+  simp [COp.WF]
+
+example : ((Sess.init 0 false).run demoSession).wc.rev = 0 ∧
+    (((Sess.init 0 false).run demoSession).step demoCall).total =
+      [.status stResync, .updates [⟨1, 5, utNew⟩], .updates [⟨2, 6, utNew⟩], .status stInSync,
+       .status stResync, .backendErr, .status stWait, .status stResync,
+       .updates [⟨3, 8, utNew⟩], .updates [⟨2, 0, utDeleted⟩], .status stInSync,
+       .updates [⟨4, 10, utNew⟩], .updates [⟨3, 0, utDeleted⟩]] := by decide
+
+/-- Two caches feeding one syncer: the batches are quiet, the hypothesis of `syncer_quiet_while_waiting` holds. -/
+example : BatchesQuiet (WS.new 2)
+    [(0, [.status stResync, .updates [⟨1, 5, utNew⟩], .status stInSync]), (1, [.status stResync, .status stInSync])] := by
+  refine ⟨⟨by decide, by decide⟩, ⟨by decide, by decide⟩, trivial⟩
 
 end CalicoVerif.C26
